@@ -65,7 +65,7 @@ func ruleGrouperSelection(r *Run) {
 		bad := false
 		for _, c := range []struct {
 			has, without bool
-			want        string
+			want         string
 		}{{false, false, s.noClause}, {true, false, "By"}, {true, true, "Without"}} {
 			assume := map[ssa.Value]constant.Value{gNonNil: constant.MakeBool(c.has == gTrueWhenNonNil)}
 			for _, wl := range withoutLoads {
@@ -226,9 +226,9 @@ func ruleVectorOps(r *Run) {
 		Claim: "each vector operation aggregates with the aggregator of its own name"})
 	// VectorAggregation: iterator kind and comparator orientation per operation
 	orient := map[string]string{
-		"VectorOpBottomk": "type:*logqlmetric.vectorAggHeapIterator;less=Less;greater=Greater",
-		"VectorOpSort":    "type:*logqlmetric.vectorAggHeapIterator;less=Less;greater=Greater",
-		"VectorOpTopk":    "type:*logqlmetric.vectorAggHeapIterator;less=Greater;greater=Less",
+		"VectorOpBottomk":  "type:*logqlmetric.vectorAggHeapIterator;less=Less;greater=Greater",
+		"VectorOpSort":     "type:*logqlmetric.vectorAggHeapIterator;less=Less;greater=Greater",
+		"VectorOpTopk":     "type:*logqlmetric.vectorAggHeapIterator;less=Greater;greater=Less",
 		"VectorOpSortDesc": "type:*logqlmetric.vectorAggHeapIterator;less=Greater;greater=Less",
 	}
 	for n := range aggs {
@@ -265,7 +265,7 @@ func ruleVectorOps(r *Run) {
 			return joinSet(set)
 		},
 		Expected: orient, Other: "error|type:*logqlmetric.vectorAggIterator",
-		Claim:    "bottomk/sort order ascending (less=Sample.Less), topk/sort_desc descending (less=Sample.Greater); the others aggregate"})
+		Claim: "bottomk/sort order ascending (less=Sample.Less), topk/sort_desc descending (less=Sample.Greater); the others aggregate"})
 
 	// Sample.Less / Sample.Greater
 	for _, m := range []struct {
